@@ -1457,7 +1457,18 @@ class ComponentSpecification(experiment.model.interface.InternalRepresentationAt
                 pattern = re.compile(r'\b' + re.escape(original_reference) + r'\b')
                 arguments = re.sub(pattern, replacement, arguments)
 
-            blueprint_name = self.identification.componentName.rstrip('0123456789')
+            # VV: A component is its own blueprint unless it is a replica (`<blueprint name><replica index>`) in which
+            #     case the blueprint is the component it was replicated from. Stripping all trailing digits from the
+            #     name of any component would hash e.g. `calc2` using the executable of `calc`.
+            blueprint_name = self.identification.componentName
+            unreplicated = self.workflowGraph.configuration._unreplicated
+            if (self.identification.stageIndex, blueprint_name) not in unreplicated.get_component_identifiers(False):
+                replica = self.customAttributes.get('replica')
+                replica = str(replica) if replica is not None else ''
+                if replica and blueprint_name.endswith(replica):
+                    blueprint_name = blueprint_name[:-len(replica)]
+                else:
+                    blueprint_name = blueprint_name.rstrip('0123456789')
 
             # VV: We need to fetch the executables before they were resolved. We don't want to have to resolve
             #     the executables of archived experiments before generating the memoization hashes of the components
